@@ -124,7 +124,7 @@ def run(chk: core.Check) -> int:
                             {"fn": "batch", "seed": chk.seed, "n": n, "case": int(cid), "mode": mode, "hashseeds": [str(hs), str(hs)], "a": v[:1500]})
             elif v != ref["outputs"][cid]:
                 kind = kinds[int(cid)]
-                chk.failure({"kind": "nondeterministic", "case_kind": kind, "mode": mode},
+                chk.failure({"kind": "nondeterministic", "case_kind": kind, "mode": "plain" if kind.endswith("_setdefault") else mode},
                             "%s: output differs between PYTHONHASHSEED=%s (plain) and PYTHONHASHSEED=%s (%s)" % (kind, seeds[0], hs, mode),
                             {"fn": "batch", "seed": chk.seed, "n": n, "case": int(cid), "mode": mode, "hashseeds": [str(seeds[0]), str(hs)],
                              "a": ref["outputs"][cid][:1500], "b": v[:1500]})
